@@ -3,7 +3,8 @@
 /verif/seeded/<Cxx>-r<round>-<n>/ (patch.diff, demo/, meta.json) with what was run and what the checks reported."""
 import json, os, shutil, sys, glob
 rd, pid, n = sys.argv[1], sys.argv[2], sys.argv[3]
-rnd = "5" if rd.rstrip("/").endswith("seed5") else "4" if rd.rstrip("/").endswith("seed4") else "3" if rd.rstrip("/").endswith("seed3") else ("2" if rd.rstrip("/").endswith("seed2") else "1")
+import re as _re
+_m = _re.search(r"seed(\d*)$", rd.rstrip("/")); rnd = (_m.group(1) or "1") if _m else "1"
 src = f"{rd}/{pid}/out"
 dst = f"/verif/seeded/{pid}-r{rnd}-{n}"
 os.makedirs(dst, exist_ok=True)
